@@ -21,7 +21,9 @@ Conventions (source in brackets):
       [comment in _radius_generating_fns].
   R6  max_branch_len: a section longer than the value is cut, at traced points, into a chain of
       >=2 branches of the section's type, each below the value (when every traced segment is)
-      [swc_to_jaxley docstring]; *where* it is cut is not documented and not judged.
+      [swc_to_jaxley docstring]; *where* it is cut is not documented and not judged.  Beyond 10
+      sub-branches the reader stops splitting with a warning [_split_long_branches]: a section in
+      >=10 pieces may keep pieces above the value.
   R7  several sections that start at the root point without any section ending there are joined by
       a 0.1 um junction branch of group `custom` [comment in swc_to_jaxley]; the junction is
       contracted before anything is compared.
@@ -204,7 +206,8 @@ def match(ref: dict, impl: List[dict], ncomp: int, max_branch_len: Optional[floa
     def m_sec(ri, bi):
         sec = secs[ri]
         L = sec["length"]
-        may_split = mbl is not None and L > mbl and not sec["zero_length"]
+        # a section can only be cut at an interior traced point: it needs >= 2 traced segments
+        may_split = mbl is not None and L > mbl and len(sec["segs"]) >= 2
         acc, cur, pieces = 0.0, bi, []
         while True:
             pieces.append((cur, acc))
@@ -227,7 +230,8 @@ def match(ref: dict, impl: List[dict], ncomp: int, max_branch_len: Optional[floa
                     return False
                 if not any(close(start, k) for k in sec["knots_s"]):
                     return False
-                if max(sec["segs"]) <= mbl and impl[b]["length"] > mbl * (1 + 1e-12):
+                # the reader documents that it stops splitting (with a warning) beyond 10 sub-branches
+                if max(sec["segs"]) <= mbl and len(pieces) < 10 and impl[b]["length"] > mbl * (1 + 1e-12):
                     return False
         return m_set(rkids[ri], ikids[pieces[-1][0]])
 
